@@ -18,9 +18,13 @@ impl HomologyCalc {
 pub struct Deg { pub g: Ghost<int> }
 pub fn dsub_(a: Deg, b: Deg) -> (r: Deg) ensures r.g@ == a.g@ - b.g@ { Deg { g: Ghost(a.g@ - b.g@) } }
 pub fn dadd_(a: Deg, b: Deg) -> (r: Deg) ensures r.g@ == a.g@ + b.g@ { Deg { g: Ghost(a.g@ + b.g@) } }
-pub struct Cx { pub deg: Ghost<int>, pub d: Ghost<Map<int, int>> }
+pub struct Cx { pub deg: Ghost<int>, pub d: Ghost<Map<int, int>>, pub groups: Ghost<Map<int, SummandV>> }
+/// ghost content of a chain group: its raw generators and its coordinate transform
+pub struct SummandV { pub gens: Seq<int>, pub f: int, pub b: int }
 impl Cx {
     #[verifier::external_body] pub fn d_deg(&self) -> (r: Deg) ensures r.g@ == self.deg@ { unimplemented!() }
+    /// Index<I> for ChainComplexBase: the chain group in degree i
+    #[verifier::external_body] pub fn index(&self, i: Deg) -> (r: &Summand) ensures r.raw_gens.g@ == self.groups@[i.g@].gens, r.trans.f@ == self.groups@[i.g@].f, r.trans.b@ == self.groups@[i.g@].b { unimplemented!() }
     #[verifier::external_body] pub fn d_matrix(&self, i: Deg) -> (r: SpMat) ensures r.m@ == self.d@[i.g@] { unimplemented!() }
 }
 /// GenericSummand::generate (ASSUMED: stores what it is given)
@@ -30,11 +34,9 @@ impl GenericSummand {
         ensures r.i@ == i.g@, r.rank == rank, r.tors@ == tors@, r.trans == trans { unimplemented!() }
 }
 
-impl Cx {
-    pub fn compute_homology_at(&self, i: Deg, with_trans: bool) -> (h: GenericSummand)
-        requires nr(self.d@[i.g@ - self.deg@]) == nc(self.d@[i.g@]),      // consecutive differentials compose
-        ensures ({
-            let (d_in, d_out) = (self.d@[i.g@ - self.deg@], self.d@[i.g@]);
+/// what compute_homology_at(i, with_trans) returns
+pub open spec fn cha_post(cx: Cx, i: Deg, with_trans: bool, h: GenericSummand) -> bool {
+            let (d_in, d_out) = (cx.d@[i.g@ - cx.deg@], cx.d@[i.g@]);
             &&& h.i@ == i.g@ && h.trans.is_some() == with_trans
             &&& with_trans ==> trans_ok(h.trans.unwrap().f@, h.trans.unwrap().b@, d_in, d_out, h.rank as int, h.tors@.len() as int)
             &&& (d_in == mzero(nr(d_in), nc(d_in)) && d_out == mzero(nr(d_out), nc(d_out))) ==> (h.rank == nr(d_in) && h.tors@.len() == 0)
@@ -42,7 +44,36 @@ impl Cx {
                     #![trigger linked(s1, s2, d_out)]
                     linked(s1, s2, d_out) && s1.a@ == d_in && h.rank == nr(d_in) - s1.r@ - s2.r@ && h.tors@.len() == nonunits(s1.diag@, s1.r@).len()
                     && forall|k: int| 0 <= k < h.tors@.len() ==> (#[trigger] h.tors@[k]).v() == nonunits(s1.diag@, s1.r@)[k]
-        }),
+        }
+/// IndexList<X> (the raw generators of a chain group), by its abstract content
+pub struct IndexList { pub g: Ghost<Seq<int>> }
+impl IndexList { #[verifier::external_body] pub fn clone(&self) -> (r: IndexList) ensures r.g@ == self.g@ { unimplemented!() } }
+/// a chain group / homology group with generators: conc::Summand (ASSUMED: `new` stores what it is given -- its two dimension asserts are not modelled)
+pub struct Summand { pub raw_gens: IndexList, pub rank: usize, pub tors: Vec<ER>, pub trans: Trans }
+impl Summand {
+    #[verifier::external_body] pub fn new(raw_gens: IndexList, rank: usize, tors: Vec<ER>, trans: Trans) -> (r: Summand)
+        ensures r.raw_gens.g@ == raw_gens.g@, r.rank == rank, r.tors@ == tors@, r.trans == trans { unimplemented!() }
+    #[verifier::external_body] pub fn raw_gens(&self) -> (r: &IndexList) ensures r.g@ == self.raw_gens.g@ { unimplemented!() }
+    /// (not used by the current body; modelled so that shortcuts through them are decided rather than rejected as unknown)
+    #[verifier::external_body] pub fn rank(&self) -> (r: usize) ensures r == self.rank { unimplemented!() }
+    #[verifier::external_body] pub fn zero() -> (r: Summand) ensures r.raw_gens.g@.len() == 0, r.rank == 0, r.tors@.len() == 0, r.trans.f@ == mid(0), r.trans.b@ == mid(0) { unimplemented!() }
+    #[verifier::external_body] pub fn trans(&self) -> (r: &Trans) ensures *r == self.trans { unimplemented!() }
+}
+impl GenericSummand {
+    #[verifier::external_body] pub fn rank(&self) -> (r: usize) ensures r == self.rank { unimplemented!() }
+    #[verifier::external_body] pub fn tors(&self) -> (r: &Vec<ER>) ensures r@ == self.tors@ { unimplemented!() }
+    /// (GenericSummand::generate turns a missing transform into the identity; here it is always present)
+    #[verifier::external_body] pub fn trans(&self) -> (r: &Trans) requires self.trans.is_some() ensures *r == self.trans.unwrap() { unimplemented!() }
+}
+impl Trans {
+    /// proved in unit trans: composition
+    #[verifier::external_body] pub fn merged(&self, other: &Trans) -> (r: Trans) ensures r.f@ == mmul(other.f@, self.f@), r.b@ == mmul(self.b@, other.b@) { unimplemented!() }
+}
+#[verifier::external_body] pub fn vec_cloned_(v: &Vec<ER>) -> (r: Vec<ER>) ensures r@.len() == v@.len(), forall|k: int| 0 <= k < v@.len() ==> (#[trigger] r@[k]).v() == v@[k].v() { unimplemented!() }
+impl Cx {
+    pub fn compute_homology_at(&self, i: Deg, with_trans: bool) -> (h: GenericSummand)
+        requires nr(self.d@[i.g@ - self.deg@]) == nc(self.d@[i.g@]),      // consecutive differentials compose
+        ensures cha_post(*self, i, with_trans, h),
     //@body impl/ComputeHomology@C/compute_homology_at ring=1 q=i,d_deg qname=d
     //@+ sig
     //@| fn compute_homology_at(&self, i: I, with_trans: bool) -> GenericSummand<I, R>
@@ -58,6 +89,22 @@ impl Cx {
     //@|     assert(linked(s1, s2, d_out) && h.rank == nr(d_in) - s1.r@ - s2.r@ && h.tors@.len() == nonunits(s1.diag@, s1.r@).len());
     //@|     assert forall|k: int| 0 <= k < h.tors@.len() implies (#[trigger] h.tors@[k]).v() == nonunits(s1.diag@, s1.r@)[k] by { assert(h.tors@[k] == gtors[k]); }
     //@| }
+
+    /// the homology group in degree i WITH its generators: all raw generators of the chain group C_i (also when C_i has rank 0 after a
+    /// reduction), rank and torsion of compute_homology_at(i, true), coordinates = (homology coordinates) o (chain-group coordinates)
+    pub fn homology_at(&self, i: Deg) -> (r: Summand)
+        requires nr(self.d@[i.g@ - self.deg@]) == nc(self.d@[i.g@]),
+        ensures r.raw_gens.g@ == self.groups@[i.g@].gens,
+            exists|h: GenericSummand| #[trigger] cha_post(*self, i, true, h) && r.rank == h.rank && r.tors@.len() == h.tors@.len()
+                && (forall|k: int| 0 <= k < h.tors@.len() ==> (#[trigger] r.tors@[k]).v() == h.tors@[k].v())
+                && r.trans.f@ == mmul(h.trans.unwrap().f@, self.groups@[i.g@].f) && r.trans.b@ == mmul(self.groups@[i.g@].b, h.trans.unwrap().b@),
+    //@body impl/ChainComplexBase/homology_at for_iter=1 index1=self source=yui-homology/src/conc/homology.rs
+    //@+ sig
+    //@| fn homology_at(&self, i: I) -> Summand<X, R>
+    //@+ after-let-raw h
+    //@| let ghost gh = h;
+    //@+ post
+    //@| assert(cha_post(*self, i, true, gh));
 }
 
 } // verus!
